@@ -28,21 +28,6 @@ def gen_case(rnd, tier: str, i: Any, **over: Any) -> Dict[str, Any]:
             "win_seed": rnd.randrange(10 ** 9), "inc_last": False, "time_unit": rnd.choice([1, 1, 1, 1, 0.125, 0.375])}
 
 
-def scaled_files(files: Dict[str, Any], unit: float) -> Dict[str, Any]:
-    """The same trace recorded at sub-microsecond resolution: every ts / dur multiplied by a dyadic constant (exact in
-    doubles).  Loaded with HTA_DISABLE_NS_ROUNDING=1 the time columns are float and edge weights fractional."""
-    import copy
-
-    out = copy.deepcopy(files)
-    for tr in out.values():
-        for e in tr["traceEvents"]:
-            if isinstance(e, dict):
-                for k in ("ts", "dur"):
-                    if isinstance(e.get(k), (int, float)) and not isinstance(e.get(k), bool):
-                        e[k] = e[k] * unit
-    return out
-
-
 @dataclass
 class Analysed:
     ta: Any
@@ -83,14 +68,9 @@ def choose_windows(rnd, view: refcp.View, n: int) -> List[Tuple[str, Any]]:
 
 def prepare(case: Dict[str, Any], ctx: Any, res: core.CaseResult, need_causal: bool = True):
     """Regime checks, write files, load.  Returns (ta, models, loaded, dir) or None (discarded / violation)."""
-    unit = case.get("time_unit", 1)
-    if unit != 1:
-        case = dict(case, files=scaled_files(case["files"], unit), time_unit=1, _float=True)
-        res.counters["fractional_time_cases"] += 1
-    fl = bool(case.get("_float"))
     models = {}
     for fn, tr in case["files"].items():
-        m = raw.model(tr["traceEvents"], rounding=not fl)
+        m = raw.model(tr["traceEvents"])
         why = wf.well_formed(m, tr["traceEvents"])
         if not why and need_causal:
             why = wf.causal(m)
@@ -103,12 +83,11 @@ def prepare(case: Dict[str, Any], ctx: Any, res: core.CaseResult, need_causal: b
     if case.get("post_edits"):
         for fn, idx, dur in case["post_edits"]:
             case["files"][fn]["traceEvents"][idx]["dur"] = dur
-        models = {tr["distributedInfo"]["rank"]: raw.model(tr["traceEvents"], rounding=not fl) for tr in case["files"].values()}
+        models = {tr["distributedInfo"]["rank"]: raw.model(tr["traceEvents"]) for tr in case["files"].values()}
         case = dict(case, post_edits=None)
     d = ctx.scratch.new("cp")
     core.write_trace_files(d, case["files"])
-    with core.env(HTA_DISABLE_NS_ROUNDING="1" if fl else None):
-        ok, ta = drv.guard(res, "TraceAnalysis(load)", drv.new_analysis, d)
+    ok, ta = drv.guard(res, "TraceAnalysis(load)", drv.new_analysis, d)
     if not ok:
         return None
     ld = refload.loaded(models, case.get("inc_last", False))
